@@ -1539,7 +1539,8 @@ class Chemical:
 
         # Energy
         self._Hfus = heat_of_fusion(CAS) or 0. if Hfus is None else Hfus
-        self._Sfus = None if Hfus is None or Tm is None else Hfus / Tm 
+        Hfus, Tm = self._Hfus, self._Tm
+        self._Sfus = None if Hfus is None or not Tm else Hfus / Tm
         
         # Other
         self._dipole = dipole or dipole_moment(CAS)
